@@ -17,13 +17,18 @@ func catalog(thorough bool) gen.Catalog {
 	accVals := []string{"c", "a"}
 	monVals := []string{"COIN 3"}
 	pVals := []string{"1/4"}
+	// a second account variable over the same accounts as $acc, so that two DIFFERENT
+	// expressions ($acc / $acc2 / the literal @a) can denote the SAME account (aliasStage)
+	acc2Vals := []string{"a", "c"}
 	if thorough {
+		acc2Vals = []string{"a", "c", "b"}
 		accVals = []string{"c", "a", "world"}
 		monVals = []string{"COIN 3", "COIN 0"}
 		pVals = []string{"1/4", "0%", "100%"}
 	}
 	return gen.Catalog{
 		"acc":  {Type: "account", Name: "acc", Values: accVals},
+		"acc2": {Type: "account", Name: "acc2", Values: acc2Vals},
 		"mon":  {Type: "monetary", Name: "mon", Values: monVals},
 		"p":    {Type: "portion", Name: "p", Values: pVals},
 		"n":    {Type: "number", Name: "n", Values: []string{"42"}},
@@ -104,6 +109,40 @@ func yieldPairs(cat gen.Catalog, first, second []*gen.Stmt) func(func(*gen.Progr
 				}
 			}
 		}
+	}
+}
+
+// aliasStage: two-send programs whose sources are written as DIFFERENT expressions that the
+// inputs bind to the SAME account (and to different ones): the literal @a, the variables
+// $acc and $acc2 (both range over {a, c}), an in-order source of both, a bounded overdraft on
+// a variable; amounts in both assets (and balance($acc, COIN), which makes the runtime fetch
+// a balance for the variable's account on its own). A runtime that keys anything it fetches
+// or tracks by EXPRESSION (resource) rather than by account name is only exercised by these
+// inputs: every other stage names an account through one expression per program, or uses one
+// asset per account.
+func aliasStage(thorough bool) stage {
+	cat := catalog(thorough)
+	acc := func(a string) *gen.Src { return &gen.Src{K: gen.SAcc, Acc: a} }
+	srcs := []*gen.Src{
+		acc("@a"), acc("$acc"), acc("$acc2"),
+		{K: gen.SSeq, Sub: []*gen.Src{acc("$acc"), acc("$acc2")}},
+		{K: gen.SOver, Acc: "$acc2", Bound: coin(2)},
+	}
+	amts := []gen.Amount{
+		{Mon: coin(1)}, {Mon: coin(7)}, {Mon: gen.LitMon(assetOther, 1)}, {All: true, Asset: assetOther}, {Mon: gen.VarMon("balv")},
+	}
+	if thorough {
+		srcs = append(srcs, &gen.Src{K: gen.SMax, Max: coin(5), Sub: []*gen.Src{acc("$acc2")}},
+			&gen.Src{K: gen.SSeq, Sub: []*gen.Src{acc("@a"), acc("$acc")}})
+		amts = append(amts, gen.Amount{Mon: gen.LitMon(assetOther, 7)}, gen.Amount{All: true, Asset: assetMain})
+	}
+	sends := gen.Sends(amts, srcs, []*gen.Dst{{K: gen.DAcc, Acc: "@b"}})
+	// crediting the account through one expression before debiting it through another
+	sends = append(sends, gen.Send(gen.Amount{Mon: coin(1)}, acc("@world"), &gen.Dst{K: gen.DAcc, Acc: "$acc2"}))
+	return stage{
+		Name: fmt.Sprintf("E0: aliasing: every ordered pair of %d sends over sources {@a, $acc, $acc2, {$acc $acc2}, $acc2 overdraft<=[COIN 2]%s} x amounts %s to @b (+ [COIN 1] from @world to $acc2), $acc and $acc2 both ranging over %v / %v", len(sends),
+			map[bool]string{false: "", true: ", max [COIN 5] from $acc2, {@a $acc}"}[thorough], amountMenuText(amts), cat["acc"].Values, cat["acc2"].Values),
+		Progs: yieldPairs(cat, sends, sends),
 	}
 }
 
